@@ -1152,4 +1152,107 @@ Proof.
       inversion KV; subst v'. simpl. exact G'.
 Qed.
 
+(** ** the C05 lemmas *)
+
+(** does the plan carry the rows of the modified table over?  ALTER path: always; copy path:
+    iff the INSERT ... SELECT is planned, i.e. at least one column is paired ([len(toC) > 0]) *)
+Definition copies_rows (t : tdef) (m : list tchange) : bool :=
+  alterable m || match pairs m (td_cols t) with [] => false | _ => true end.
+
+Definition wf_changes (cs : list schange) : Prop := NoDup (flat_map touched cs).
+
+Lemma C05_rows_preserved_except_lemma :
+  forall d cs p d',
+  wf_changes cs -> pragma_effective d ->
+  PlanChanges cs = POk p -> exec_all d p = EOk d' ->
+  forall t m told,
+  In (ModifyTable t m) cs -> NoDup (map rc_name (td_cols t)) ->
+  find_et (td_name t) (d_tables d) = Some told ->
+  exists tnew, find_et (td_name t) (d_tables d') = Some tnew /\
+    (copies_rows t m = true ->
+     length (et_rows tnew) = length (et_rows told) /\
+     forall i r r', nth_error (et_rows told) i = Some r -> nth_error (et_rows tnew) i = Some r' ->
+       forall c cold v, In c (td_cols t) -> rc_gen c = false -> kept m c <> None ->
+         ~ In (rc_name c) (renamed_cols m) ->
+         find_rcol (rc_name c) (et_cols told) = Some cold -> rc_type cold = rc_type c ->
+         get r (rc_name c) = Some v ->
+         get r' (rc_name c) = Some (if ifnull_wrapped m c && is_null v then rc_defval c else v)) /\
+    (copies_rows t m = false -> et_rows tnew = []).
+Proof.
+  intros d cs p d' WF PE P X t m told Hin ND FT.
+  destruct (apply_general cs p d d' P PE WF X) as [_ EF].
+  destruct (EF t m told Hin ND FT) as [tnew [FN K]]. exists tnew. split; [exact FN|]. split.
+  - intros CR. apply kept_rows_values; [exact K|].
+    unfold copies_rows in CR. destruct (alterable m); [auto|right].
+    destruct (pairs m (td_cols t)); [discriminate|congruence].
+  - intros CR. unfold copies_rows in CR. unfold kept_rows in K.
+    destruct (alterable m); [discriminate|]. destruct K as [_ K].
+    destruct (pairs m (td_cols t)); [exact K|discriminate].
+Qed.
+
+Lemma C05_others_untouched_lemma :
+  forall d cs p d',
+  wf_changes cs -> pragma_effective d ->
+  PlanChanges cs = POk p -> exec_all d p = EOk d' ->
+  forall n, ~ In n (flat_map touched cs) -> find_et n (d_tables d') = find_et n (d_tables d).
+Proof.
+  intros d cs p d' WF PE P X. exact (proj1 (apply_general cs p d d' P PE WF X)).
+Qed.
+
+(** new NOT NULL columns never hold NULL after the copy, and a column the change set adds holds
+    its default (copy path) *)
+Lemma C05_copy_new_columns_lemma :
+  forall d cs p d',
+  wf_changes cs -> pragma_effective d ->
+  PlanChanges cs = POk p -> exec_all d p = EOk d' ->
+  forall t m told tnew,
+  In (ModifyTable t m) cs -> NoDup (map rc_name (td_cols t)) -> alterable m = false ->
+  find_et (td_name t) (d_tables d) = Some told ->
+  find_et (td_name t) (d_tables d') = Some tnew ->
+  et_cols tnew = td_cols t /\
+  forall r' c, In r' (et_rows tnew) -> In c (td_cols t) -> rc_gen c = false ->
+    exists v', get r' (rc_name c) = Some v' /\ (rc_notnull c = true -> v' <> VNull) /\
+               (kept m c = None -> v' = rc_defval c).
+Proof.
+  intros d cs p d' WF PE P X t m told tnew Hin ND A FT FN.
+  destruct (apply_general cs p d d' P PE WF X) as [_ EF].
+  destruct (EF t m told Hin ND FT) as [tnew' [FN' K]]. rewrite FN in FN'. inversion FN'; subst tnew'.
+  unfold kept_rows in K. rewrite A in K. destruct K as [C K]. split; [exact C|].
+  intros r' c Hr Hc G. destruct (pairs m (td_cols t)); [rewrite K in Hr; contradiction|].
+  destruct K as [L S]. apply In_nth_error in Hr. destruct Hr as [i Hi].
+  assert (i < length (et_rows told)) as Hlt by (rewrite <- L; apply nth_error_Some; congruence).
+  destruct (nth_error (et_rows told) i) as [r|] eqn:Hr; [|apply nth_error_None in Hr; lia].
+  destruct (S i r r' Hr Hi c Hc G) as [v' [G' [NN KV]]]. exists v'. split; [exact G'|]. split; [exact NN|].
+  intros KN. now rewrite KN in KV.
+Qed.
+
 End EngineProofs.
+
+(** the planner-level pairing: toC and fromC have the same length, and position by position
+    the target is a plain column of the new table and the source is the expression [kept]
+    assigns to that column *)
+Lemma C05_copy_pairing_lemma :
+  forall f t cs l,
+  copyRows f t cs = POk l ->
+  l = [] \/
+  exists toC fromC,
+    l = [SCopyRows (td_name t) toC fromC (td_name f)] /\ toC <> [] /\
+    length toC = length fromC /\
+    forall i n, nth_error toC i = Some n ->
+      exists c x, In c (td_cols t) /\ rc_gen c = false /\ rc_name c = n /\
+                  kept cs c = Some x /\ nth_error fromC i = Some x.
+Proof.
+  intros f t cs l H. apply copyRows_spec in H.
+  destruct (pairs cs (td_cols t)) as [|p0 ps0] eqn:PS; [left; exact H|right].
+  exists (map fst (p0 :: ps0)), (map snd (p0 :: ps0)). split; [exact H|]. split; [discriminate|].
+  split; [now rewrite !map_length|].
+  intros i n Hn. rewrite <- PS in *. rewrite nth_error_map in Hn.
+  destruct (nth_error (pairs cs (td_cols t)) i) as [[n' x]|] eqn:E; [|discriminate].
+  simpl in Hn. inversion Hn; subst n'.
+  pose proof (nth_error_In _ _ E) as Hin. unfold pairs in Hin. apply in_flat_map in Hin.
+  destruct Hin as [c [Hc Hx]]. destruct (kept cs c) as [x'|] eqn:K; [|contradiction].
+  destruct Hx as [Hx|[]]. inversion Hx; subst.
+  exists c, x. repeat split; auto.
+  - unfold kept in K. destruct (rc_gen c); [discriminate|reflexivity].
+  - rewrite nth_error_map, E. reflexivity.
+Qed.
